@@ -238,19 +238,25 @@ func c20Gen(c *vfCtx, emit func(c20Case)) {
 	}
 }
 
+// names of the stale items carry format verbs: the summary prints names, it does not interpret them
+const (
+	c20StaleID   = "TestGone/100%_off_%d - 1"
+	c20StaleFile = "stale%s_%d.snap"
+)
+
 func c20Stale(dir string, stale int) {
 	if stale >= 1 {
 		f, _ := os.OpenFile(filepath.Join(dir, "f.snap"), os.O_APPEND|os.O_CREATE|os.O_WRONLY, 0o644)
-		f.Write(vfRender([]vfEntry{{ID: "TestGone - 1", Body: "gone"}}))
+		f.Write(vfRender([]vfEntry{{ID: c20StaleID, Body: "gone"}}))
 		f.Close()
 	}
 	if stale >= 2 {
-		os.WriteFile(filepath.Join(dir, "stale.snap"), vfRender([]vfEntry{{ID: "TestOld - 1", Body: "x"}}), 0o644)
+		os.WriteFile(filepath.Join(dir, c20StaleFile), vfRender([]vfEntry{{ID: "TestOld - 1", Body: "x"}}), 0o644)
 	}
 	if stale >= 3 {
 		// the SAME obsolete id in a second addressed file (g.snap, addressed by the op "snap2:pass")
 		f, _ := os.OpenFile(filepath.Join(dir, "g.snap"), os.O_APPEND|os.O_CREATE|os.O_WRONLY, 0o644)
-		f.Write(vfRender([]vfEntry{{ID: "TestGone - 1", Body: "gone too"}}))
+		f.Write(vfRender([]vfEntry{{ID: c20StaleID, Body: "gone too"}}))
 		f.Close()
 	}
 }
@@ -374,17 +380,17 @@ func c20Run(c *vfCtx, cs c20Case) {
 	visited = visited || multiG
 	var staleT, staleF []string
 	if multiF && cs.Stale >= 1 {
-		staleT = append(staleT, "TestGone - 1")
+		staleT = append(staleT, c20StaleID)
 	}
 	if !multiF && visited && cs.Stale >= 1 {
 		staleF = append(staleF, "f.snap") // nobody addressed the multi-entry file in this run
 	}
 	if visited && cs.Stale >= 2 {
-		staleF = append(staleF, "stale.snap")
+		staleF = append(staleF, c20StaleFile)
 	}
 	if cs.Stale >= 3 {
 		if multiG {
-			staleT = append(staleT, "TestGone - 1") // the same id, obsolete in a second file: listed twice
+			staleT = append(staleT, c20StaleID) // the same id, obsolete in a second file: listed twice
 		} else if visited {
 			staleF = append(staleF, "g.snap")
 		}
@@ -443,10 +449,10 @@ func c20Conc(c *vfCtx, cs c20Case) {
 	}
 	var staleT, staleF []string
 	if multi && cs.Stale >= 1 {
-		staleT = []string{"TestGone - 1"}
+		staleT = []string{c20StaleID}
 	}
 	if multi && cs.Stale >= 2 {
-		staleF = []string{"stale.snap"}
+		staleF = []string{c20StaleFile}
 	}
 	removed := cs.Env == "true" || cs.Env == "clean"
 	check := func(x *sched.Exec) string {
@@ -475,7 +481,7 @@ func c20Conc(c *vfCtx, cs c20Case) {
 			if strings.HasPrefix(op, "ssnap:") || strings.HasPrefix(op, "sjson:") {
 				staleF = []string{"f.snap"}
 				if cs.Stale >= 2 {
-					staleF = append(staleF, "stale.snap")
+					staleF = append(staleF, c20StaleFile)
 				}
 			}
 		}
